@@ -53,6 +53,8 @@ func normJSON(tr interface{}) interface{} {
 }
 
 // an item list in a single-item position
+var keepLoneTag bool
+
 func normItemList(l []interface{}) interface{} {
 	var out []interface{}
 	for _, x := range l {
@@ -91,7 +93,7 @@ func normField(v interface{}) interface{} {
 		if len(l) == 0 {
 			return nil
 		}
-		if len(l) == 1 {
+		if len(l) == 1 && !keepLoneTag {
 			e := asList(l[0])
 			return T{"nlv": []interface{}{[]interface{}{"-", e[1]}}}
 		}
